@@ -1,6 +1,8 @@
 CONSTANTS
   Protos = {"bolt", "http1"}
   MaxReq = 8
+  MaxInflight = 3
+  MaxDone = 8
   Defects = {}
   EmitCases = FALSE
 SPECIFICATION TraceSpec
